@@ -404,10 +404,12 @@ def run_job(job):
         if job.route == "D" and job.enforce:
             if not any("postcondition" in r["property"] for r in obl):
                 raise Undecided("vacuity guard: no postcondition obligation for enforced contract")
-        bad_status = [r for r in obl if r["status"] not in ("SUCCESS", "FAILURE")]
-        if bad_status:
-            raise Undecided("obligation with status %s: %s" % (bad_status[0]["status"], bad_status[0]["property"]))
         failed = [r for r in obl if r["status"] == "FAILURE"]
+        bad_status = [r for r in obl if r["status"] not in ("SUCCESS", "FAILURE")]
+        if bad_status and not failed:
+            # (with a FAILURE present, CBMC 6's assert-then-assume leaves later checks UNKNOWN: the job has failed)
+            raise Undecided("obligation with status %s: %s" % (bad_status[0]["status"], bad_status[0]["property"]))
+        obl = [r for r in obl if r["status"] in ("SUCCESS", "FAILURE")]
         res["obligations"] = len(obl)
         res["discharged"] = len(obl) - len(failed)
         res["sample_obligations"] = [{"property": r["property"], "description": r.get("description", "")[:160]}
@@ -525,8 +527,11 @@ def native_replay(job, ins, outdir):
         os.unlink(exe)
     except OSError:
         pass
-    reproduced = (rc != 0 and rc != 3) and not to
-    return {"built": True, "reproduced": reproduced, "rc": rc, "output": (out + err)[-3000:]}
+    txt = out + err
+    evidence = any(k in txt for k in ("REPLAY-CHECK-FAILED", "ERROR: AddressSanitizer", "ERROR: LeakSanitizer", "runtime error:",
+                                      "Assertion `", "Assertion '"))
+    reproduced = (rc != 0 and rc != 3) and not to and evidence and "REPLAY-ASSUME-FAILED" not in txt
+    return {"built": True, "reproduced": reproduced, "rc": rc, "timed_out": to, "output": txt[-3000:]}
 
 
 def triage(job, res, replay_root):
